@@ -580,7 +580,9 @@ Refines ==
               /\ DenProps(c.anns, Insts[i]) = e.props
 
 Verdicts == [i \in DOMAIN res |-> IF Family = "DUP" THEN "?" ELSE IF res[i] = Skip THEN "x" ELSE IF res[i].ok THEN "T" ELSE "F"]
-Emit == phase = "done" => PrintT(<<"CASE", ToJson([u |-> cs, exp |-> Verdicts, dr |-> DrOf(cs), res |-> IF ROK(cs) THEN "ok" ELSE "err"])>>)
+Targets == IF DrOf(cs) # "refused" /\ ROK(cs) /\ Family # "DUP" THEN SetToSeq(DesignatedTargets(cs, DrOf(cs))) ELSE <<>>
+Emit == phase = "done" => PrintT(<<"CASE", ToJson([u |-> cs, exp |-> Verdicts, dr |-> DrOf(cs), res |-> IF ROK(cs) THEN "ok" ELSE "err",
+                                                   targets |-> Targets])>>)
 
 ASSUME PrintT(<<"INSTS", ToJson(Insts)>>)
 ====
